@@ -233,6 +233,9 @@ pub fn run_check(id: &str, tier_name: &str) -> i32 {
         }
     }
 
+    if total.samples.is_empty() && total.evaluations > 0 {
+        machinery_errors.push("no sample case was recorded".to_string());
+    }
     // Vacuity guards: counters that must be non-zero for this check.
     for name in &spec.must_be_nonzero {
         if total.counters.get(*name).copied().unwrap_or(0) == 0 {
